@@ -179,7 +179,7 @@ class X12DataNode(object):
                 idx = i
         if idx is not None:
             return idx + 1
-        return len(self.children)
+        return 0
 
     def get_first_matching_segment(self, x12_path_str):
         """
